@@ -93,6 +93,10 @@ def finish(pid, tier, seed, level, coverage, violations, assumptions, t0):
         print('KNOWN-FINDING: property=%s %s [%s]' % (pid, k['what'], kid))
     shown = set()
     rc = 0
+    if new:
+        cnt = collections.Counter(v.sig for v in new)
+        for sig, c in cnt.most_common(12):
+            print('  [%d x] %s' % (c, sig))
     for v in new:
         rc = 1
         if v.sig in shown or len(shown) >= 5:
